@@ -11,7 +11,7 @@ Families == <<
      P("kilo", "Meters"), P("milli", "Meters"), P("centi", "Meters"),
      S("Meters", <<BP(4, -7, 1), BP(6, 1, 1)>>), S("Feet", <<BP(6, -1, 1)>>), S("Inches", <<BP(4, 2, 1)>>),
      S("Meters", <<BP(4, 40, 1), BP(6, -1, 1)>>), S("Meters", <<BP(6, -1, 1), BP(10, -2, 1), BP(22, -1, 1), BP(34, -1, 1), BP(62, -1, 1), BP(82, -1, 1), BP(123362, -1, 1)>>),
-     S("Meters", <<BP(7, 1, 1)>>), S("Inches", <<BP(4, 1, 2)>>) >>,
+     S("Meters", <<BP(7, 1, 1)>>), S("Inches", <<BP(4, 1, 2)>>), S("Feet", <<BP(6, 1, 1)>>), S("Inches", <<BP(4, 2, 1), BP(6, 2, 1)>>) >>,   \* [3 ft] and [36 in]: anonymous twins of Yards
   << U("Seconds"), U("Minutes"), U("Hours"), U("Days"), P("milli", "Seconds"), P("micro", "Seconds"), P("nano", "Seconds"), P("kilo", "Seconds"),
      S("Seconds", <<BP(4, -4, 1), BP(6, -1, 1), BP(10, -4, 1), BP(14, 1, 1), BP(22, 1, 1), BP(26, 1, 1)>>) >>,
   << U("Radians"), U("Degrees"), U("Revolutions"), U("Arcminutes"), U("Arcseconds"), P("milli", "Radians"), S("Degrees", <<BP(4, -1, 1)>>),
